@@ -365,6 +365,11 @@ func (e *Extractor) IsCharacterLevel() (bool, error) {
 	if err := e.ensureReader(); err != nil {
 		return false, err
 	}
+	if e.reader == nil {
+		// Only PDF documents have fragments to inspect; for the other formats this is an
+		// error, not a nil dereference.
+		return false, fmt.Errorf("page-level extraction is only available for PDF documents (this is %s)", e.format)
+	}
 
 	page, err := e.reader.GetPage(0)
 	if err != nil {
@@ -395,6 +400,11 @@ func (e *Extractor) IsMultiColumn() (bool, error) {
 
 	if err := e.ensureReader(); err != nil {
 		return false, err
+	}
+	if e.reader == nil {
+		// Only PDF documents have fragments to inspect; for the other formats this is an
+		// error, not a nil dereference.
+		return false, fmt.Errorf("page-level extraction is only available for PDF documents (this is %s)", e.format)
 	}
 
 	page, err := e.reader.GetPage(0)
